@@ -36,7 +36,7 @@ ASSUMPTIONS = ["every application of a query gets an errors_map with the default
 OUTSIDE = ["histories longer than 3", "request kinds outside the enumerated list", "symbolic text longer than 1-2 characters",
            "actual garbage-collector liveness (decided in inductive graph form instead)",
            "persistent containers not enumerated by the signature function"]
-BUDGET_S = {"quick": 270, "thorough": 1100}
+BUDGET_S = {"quick": 420, "thorough": 1500}
 
 stubs.install_body_io()
 error_render.render(HTTPError(500, "x"), "http://h/", False)
